@@ -90,11 +90,16 @@ STANDARD = {
         "variants": ["rel"],
         "quick": 40000,
         "thorough": 1000000,
-        "rule": "case = attribute shape from public struct literals (60% small: <= 6 per count, else up to thousands; mania <= 120) x 200 "
+        "exhaustive_prefix": True,
+        "rule": "cases 0..K-1 enumerate the COMPLETE input space of every small shape (quick: <= 2 objects, thorough: <= 3; osu circles/"
+                "sliders/spinners/ticks, taiko combo, catch fruits x droplets x tiny, mania objects x holds): every subset of provided hit "
+                "results and misses with every value 0..N+2, combo none/0/max-1/max/max+1, accuracy none/0/50/100, both priorities, "
+                "stable/lazer/CL, every passed_objects none/0..N+1; remaining cases: "
+                "attribute shape from public struct literals (60% small: <= 6 per count, else up to thousands; mania <= 120) x 200 "
                 "(400 thorough) random inputs: subsets of accuracy/combo/misses/hit results with values 0..N+2, both priorities, "
                 "stable/lazer/CL, passed_objects; clauses S1 no panic, S2 misses, S3 sum and kept results when the provided ones fit, "
                 "S4 combo bound and kept, S5 generate twice, S6 calculate() == explicit generated state. distinct = (shape, input) digests",
-        "required": {"class:small-shape": 1, "class:large-shape": 1},
+        "required": {"class:small-shape": 1, "class:large-shape": 1, "class:exhaustive-shape": 1},
     },
     "C13": {
         "variants": ["rel"],
@@ -212,6 +217,13 @@ def standard(prop, tier, seed):
             except (IndexError, ValueError):
                 raise D.Inconclusive(f"cannot determine the size of the enumerated space: {out!r}")
             total = max(total, exhaustive_n + 50)
+        if exhaustive_n:
+            # the enumerated cases are heavy: one worker process per case
+            D.run_sharded(agg, binp, prop, seed, exhaustive_n, tier, extra=cfg.get("params"), timeout=cfg.get("timeout", 1800),
+                          budget=cfg.get("budget"), mem=cfg.get("mem"), variant=variant, chunk=1, tag="x")
+            D.run_sharded(agg, binp, prop, seed, total - exhaustive_n, tier, extra=cfg.get("params"), timeout=cfg.get("timeout", 1800),
+                          budget=cfg.get("budget"), mem=cfg.get("mem"), variant=variant, start=exhaustive_n)
+            continue
         D.run_sharded(agg, binp, prop, seed, total, tier, extra=cfg.get("params"), timeout=cfg.get("timeout", 1800),
                       budget=cfg.get("budget"), mem=cfg.get("mem"), variant=variant)
     return D.conclude(prop, tier, seed, agg, t0, cfg["rule"], COMMON_ASSUME + cfg.get("assume", []),
@@ -556,7 +568,8 @@ def miri_prebuild():
     D.log(f"[build] variant=miri {time.time() - t0:.1f}s")
 
 
-def miri_campaign(agg, prop, seed, n_cases, per_shard, models, extra_params, stats, sig_prefix, manyseeds=None):
+def miri_campaign(agg, prop, seed, n_cases, per_shard, models, extra_params, stats, sig_prefix, manyseeds=None, own_oracles=True,
+                  stat_tag=""):
     import concurrent.futures as cf
     jobs = [(m, s) for m in models for s in range(0, n_cases, per_shard)]
     results = {}
@@ -571,14 +584,15 @@ def miri_campaign(agg, prop, seed, n_cases, per_shard, models, extra_params, sta
     reports = {}
     for (m, s), r in sorted(results.items()):
         pl = D.parse_log(r["log"])
-        if m == models[0]:
-            agg.add_stats(pl["stats"])
-        agg.viol.extend(dict(v, variant=f"miri-{m}") for v in pl["viol"])
-        for v in pl["viol"]:
-            agg.viol_sig_counts[v["sig"]] = agg.viol_sig_counts.get(v["sig"], 0) + 1
-        stats[f"miri_{m}_shards"] = stats.get(f"miri_{m}_shards", 0) + 1
+        if own_oracles:
+            if m == models[0]:
+                agg.add_stats(pl["stats"])
+            agg.viol.extend(dict(v, variant=f"miri-{m}") for v in pl["viol"])
+            for v in pl["viol"]:
+                agg.viol_sig_counts[v["sig"]] = agg.viol_sig_counts.get(v["sig"], 0) + 1
+        stats[f"miri_{m}{stat_tag}_shards"] = stats.get(f"miri_{m}{stat_tag}_shards", 0) + 1
         if pl["stats"]:
-            stats[f"miri_{m}_cases_completed"] = stats.get(f"miri_{m}_cases_completed", 0) + min(per_shard, n_cases - s)
+            stats[f"miri_{m}{stat_tag}_cases_completed"] = stats.get(f"miri_{m}{stat_tag}_cases_completed", 0) + min(per_shard, n_cases - s)
         if r["timed_out"]:
             agg.inconclusive.append(f"miri shard {m}@{s} hit the wall-clock limit")
             continue
@@ -677,6 +691,9 @@ def c11(prop, tier, seed):
     miri_prebuild()
     n_miri = 48 if quick else 800
     miri_campaign(agg, prop, seed, n_miri, 3 if quick else 5, ["stacked", "tree"], {"small": 1}, stats, "C11")
+    # the decoder (raw-pointer scratch buffer) on hostile small inputs: the C06 workload, only Miri's verdict counts here
+    miri_campaign(agg, "C06", seed, 32 if quick else 400, 4, ["stacked", "tree"], {"small": 1}, stats, "C11", own_oracles=False,
+                  stat_tag="_decoder")
     # valgrind memcheck sample on the plain release binary
     relb = D.build("rel")
     import concurrent.futures as cf
